@@ -1,5 +1,6 @@
 import IndicatifModel.Proofs.GenBridgePad
 import IndicatifModel.Model.Pad
+import IndicatifModel.Proofs.Render
 /-!
 # C12 — Field width, alignment and truncation contract
 -/
@@ -180,5 +181,39 @@ theorem C12_source_pad (s : List G) (width : Nat) (align : Align) (truncate : Bo
     (Generated.paddedFmt (cols s) (bytes s) width truncate (GenBridge.toGenAlign align)).map (GenBridge.applyAction s)
       = some (pad s width align truncate) :=
   GenBridge.gen_pad s width align truncate hcb
+
+/-! ## the wide message inside its line (`Model/Render.lean`, stream C10R) -/
+open Render in
+/-- **C12 (`wide_msg` in its line).** For every template line `l {wide_msg} r` whose other parts are ordinary (no second wide
+element, no line break, no NUL in their texts) and every message without a line break: the line handed to the draw target
+is the text of `l`, then the message as a *truncating field of exactly the columns the rest of the line leaves*
+(`W − columns(l) − columns(r)`, the alignment written in the placeholder; trailing blanks trimmed when nothing follows), then
+the text of `r`. If the message consists of one-byte one-column characters, something follows the field and the rest fits,
+the line is exactly as wide as the terminal. -/
+theorem C12_wide_msg_in_line (env : Env) (l r : List Template.Part) (al : Template.Align) (t : Bool) (s sa : Option (List Char))
+    (hc : env.custom wideMsgKey = none)
+    (hl : ∀ p ∈ l, PlainPart env p) (hr : ∀ p ∈ r, PlainPart env p)
+    (hL : NoNul (l.flatMap (expansion env))) (hR : NoNul (r.flatMap (expansion env)))
+    (hLn : NoNl (l.flatMap (expansion env))) (hRn : NoNl (r.flatMap (expansion env))) (hm : NoNl env.msg) :
+    formatState env (l ++ [.ph wideMsgKey al none t s sa] ++ r) =
+      [l.flatMap (expansion env) ++ wideMsgField env (toPad al) (l.flatMap (expansion env)) (r.flatMap (expansion env)) ++ r.flatMap (expansion env)] ∧
+    (Plain env.msg → r.flatMap (expansion env) ≠ [] → cols (l.flatMap (expansion env)) + cols (r.flatMap (expansion env)) ≤ env.W →
+      cols (l.flatMap (expansion env) ++ wideMsgField env (toPad al) (l.flatMap (expansion env)) (r.flatMap (expansion env)) ++ r.flatMap (expansion env)) = env.W) := by
+  refine ⟨formatState_wide_msg_line env l r al t s sa hc hl hr hL hR hLn hRn hm, ?_⟩
+  intro hp hne hfit
+  have hfill := C12_wide_msg_fills_the_line env.msg hp env.W (cols (l.flatMap (expansion env)) + cols (r.flatMap (expansion env))) (toPad al) hfit
+  unfold wideMsgField
+  rw [if_neg hne, cols_append, cols_append, cols_append]
+  omega
+
+def exEnv : Render.Env :=
+  { W := 8, cw := fun _ => 1, custom := fun _ => none, builtin := fun _ _ => none,
+    msg := [⟨97, 1, 1⟩, ⟨98, 1, 1⟩, ⟨99, 1, 1⟩], bar := fun _ => [] }
+
+/-- non-vacuity: `[{wide_msg:>}]` on 8 columns with a 3-letter message -/
+example :
+    Render.formatState exEnv [.lit ['['], .ph Render.wideMsgKey .right none false none none, .lit [']']]
+      = [[⟨91, 1, 1⟩, ⟨32, 1, 1⟩, ⟨32, 1, 1⟩, ⟨32, 1, 1⟩, ⟨97, 1, 1⟩, ⟨98, 1, 1⟩, ⟨99, 1, 1⟩, ⟨93, 1, 1⟩]] := by
+  decide
 
 end IndicatifModel.Pad
